@@ -1,5 +1,7 @@
 """C37 Text patches map back to the right source positions — bounded run-time contract (tier B).
 
+Tier P (lemma, contracts/C37_offsets.py): Replacer.get_input_pos on the offset tables' invariant.
+
 Real classes under contract (imported from common.REPO): textbuilder.Text, Replacer, Combiner.
 
 A builder composition is described by plain data
@@ -390,6 +392,13 @@ def main():
     "answer); they are counted as precondition_skipped",
     "a range inside a literal string part of a Combiner maps to None (Combiner docstring / tests)",
   ]
+  rep.assumptions.append(
+    "tier P lemma (contracts/C37_offsets.py): Replacer.get_input_pos against the offset tables' "
+    "representation invariant (parallel lists starting at 0, output offsets non-decreasing), proved "
+    "for all tables and positions; bisect.bisect_right through its assumed contract, mathematical "
+    "integers; that Replacer.__init__ establishes the invariant is NOT proved (bounded tier only)")
+  from vlib.pysym import runner
+  runner.run_property(rep, "contracts.C37_offsets", bounded=False)
   rep.coverage["rule"] = (
     "one evaluation = one (composition, output range) pair: the real builders are constructed, "
     "get_text() is compared with direct application, and map_back_patch of the range is compared "
